@@ -525,6 +525,17 @@ def oracle_c10(res):
                     suppressed = (nr >> ((pcode >> 5) - 1)) & 1 == 1
                     sent = [o for o in sn if o["tick"] == tp and o["remote"] == remote and o["code"] == pcode
                             and o["token"] == tok and o["body"] == pbody]
+                    # a separate CON response waits while another CON to that peer is unacknowledged
+                    # (NSTART, judged by C14): then nothing is expected on the wire at this tick
+                    open_con = False
+                    for o in sn:
+                        if o["mtype"] == "CON" and o["remote"] == remote and o["tick"] < tp:
+                            acked = [tt for (tt, kk, ff) in ins if kk == "R" and int(ff[0]) == remote
+                                     and ff[2] in ("ACK", "RST") and int(ff[4]) == o["mid"] and o["tick"] < tt <= tp]
+                            if not acked:
+                                open_con = True
+                    if open_con and not sent:
+                        break
                     if suppressed and sent:
                         return f"no-response-ignored: response {pcode} sent despite No-Response={nr}"
                     if not suppressed:
